@@ -405,7 +405,7 @@ fn explore(ctx: &Ctx) {
     );
     ctx.assume("sha2 crate and the harness RFC 6962 reference are correct");
     ctx.assume("Load(k) is only issued for k <= leaves consistently persisted (see model B comment)");
-    let (da, db) = ctx.pick((6usize, 4usize), (8, 6));
+    let (da, db) = ctx.pick((7usize, 5usize), (9, 7));
     let a = InMem {
         alphabet: vec![0, 1],
         bulk: vec![4, 7],
